@@ -57,9 +57,10 @@ def obligations(tier):
                          "each chart dropped at once (freed objects, recycled addresses): every parse identical to the first parse of its text"))
     obs.append(Ob("C01.witness_replay", "PY", "vf.fk_witness", "check", 300,
                   funcs=("chartparse.sync.SyncTrack.from_chart_lines", "chartparse.sync.BPMEvents.timestamp_at_tick_no_optimize_return", "chartparse.tick.seconds_from_ticks_at_bpm (real arithmetic)", "chartparse.time.add"),
-                  bounds="z3 generates 70 integer witnesses in 14 rare regions (sub-microsecond ticks before a tempo change, long runs of them, a tempo change more than a day into the chart, "
-                         "exact half-microsecond offsets, tempo ratios of 10^9); each is replayed through the real parser and query (native floats) and judged against exact rationals: "
-                         "|time-exact| <= 0.501 us per segment, tick 0 = 0, non-decreasing, strictly increasing where every tick lasts >= 2 us, stored tempo times = queried times"))
+                  bounds="z3 generates 80 integer witnesses in 16 rare regions (sub-microsecond ticks before a tempo change, long runs of them, a tempo change more than a day into the chart, "
+                         "exact half-microsecond offsets, tempo ratios of 10^9, the tempo in force restated off the microsecond grid); each is replayed through the real parser and query (native floats) "
+                         "as a tempo map and as a whole chart with events of every kind in two tracks, and a third of them again under a changed thread-local decimal context; judged against exact rationals: "
+                         "|time-exact| <= 0.501 us per segment, tick 0 = 0, non-decreasing, strictly increasing where every tick lasts >= 2 us, every stored time = the un-hinted query of its tick"))
     return obs
 
 
@@ -73,6 +74,6 @@ LEVEL_NOTE = ("B=0.501us (0.5 + float64 evaluation noise at <=1e6 s, which the p
 TECHNIQUE = "SMT lemmas on the live float kernel (cvc5 bit-precise, z3 relaxed reals) + CrossHair dataflow of the real lookup/constructors, whole [SyncTrack] and whole-chart harnesses on token lines + z3 glue lemmas + z3-generated boundary witnesses replayed through the real query"
 ENGINE = "FK+CH"
 EXPLANATION = "kernel lemmas K1-K5, dataflow harnesses, glue G1-G4; see obligation_table"
-BOUNDS = "R<=1e8, n<=1e9 (BPM<=1e6), d<=2e8 ticks per segment, time<1e6 s; K<=3/5 tempo events in CH (any K by induction); whole chart: 5 sections, 2 tempo events, 2 notes; 70 boundary witnesses"
+BOUNDS = "R<=1e8, n<=1e9 (BPM<=1e6), d<=2e8 ticks per segment, time<1e6 s; K<=3/5 tempo events in CH (any K by induction); whole chart: 5 sections, 2 tempo events, 2 notes; 80 boundary witnesses"
 OUTSIDE = "R>1e8, n>1e9, times >=1e6 s; environment contracts E1-E3"
 ASSUMPTIONS = [S1, S3, S4, S5, E1, E2, E3]
